@@ -149,7 +149,7 @@ func (fv *FuncVerifier) info() *types.Info { return fv.frame().info }
 func (fv *FuncVerifier) typeOf(e ast.Expr) types.Type {
 	t := fv.info().TypeOf(e)
 	if t == nil {
-		reject("no type for expression at %s", fv.pos(e.Pos()))
+		reject("no type for expression %T at %s (column %d, frame %s)", e, fv.pos(e.Pos()), fv.prog.fset.Position(e.Pos()).Column, fv.frame().fd.key)
 	}
 	return fv.subst(t)
 }
